@@ -4,7 +4,7 @@ from .val import *
 
 
 class Obligation:
-    __slots__ = ("func", "kind", "site", "assumptions", "goal", "info", "path", "inputs", "line")
+    __slots__ = ("func", "kind", "site", "assumptions", "goal", "info", "path", "inputs", "line", "reveal")
 
     def __init__(self, func, kind, site, assumptions, goal, info="", path=0, inputs=None, line=0):
         self.func = func
@@ -16,6 +16,7 @@ class Obligation:
         self.path = path
         self.inputs = inputs  # name -> Val  (entry values of the parameters, for counterexample extraction)
         self.line = line
+        self.reveal = ()
 
     @property
     def name(self):
